@@ -74,8 +74,9 @@ PROPS["C03"] = dict(
                     "(counter exhaustive_strings); everything else is sampled",
     required=[("types_exercised", 200), ("exhaustive_strings", 60000), ("rejected:bad-tag", 10), ("rejected:bad-variant", 10),
               ("rejected:bad-utf8", 10), ("rejected:zero-nonzero", 10), ("rejected:nanos", 1), ("rejected:non-canonical-compact", 10),
-              ("rejected:over-wide-compact", 10), ("rejected:too-many-bits", 10), ("rejected:eof", 10), ("accepted", 1000)],
-    stages=lambda tier: [native(), native(runtime="release", name="release", slow=2), asan(values=60 if tier == "quick" else 800, args=["--mode", "sampled-only"])] + ([
+              ("rejected:over-wide-compact", 10), ("rejected:too-many-bits", 10), ("rejected:eof", 10), ("accepted", 1000), ("fuzz_executions", 100000)],
+    stages=lambda tier: [native(), native(runtime="release", name="release", slow=2), asan(values=60 if tier == "quick" else 800, args=["--mode", "sampled-only"]),
+                         dict(runtime="fuzz", name="fuzz", seconds=45 if tier == "quick" else 900)] + ([
         miri(values=3, args=["--mode", "sampled-only"]),
     ] if tier == "thorough" else []),
 )
